@@ -31,7 +31,7 @@ def call_seqs(maxk=4, maxcalls=3, total=7):
 def jobs_for(tier, rng):
     seqs = call_seqs()
     jobs = []
-    n_each = 24 if tier == "quick" else 150
+    n_each = 24 if tier == "quick" else 400
     for k in range(n_each):
         # VI / SAVI on unions
         for kind in ("VI", "SAVI"):
@@ -40,7 +40,8 @@ def jobs_for(tier, rng):
             g = rng.choice([[1, 4], [1, 2], [1, 2], [3, 4]])
             jobs.append({"mdp": m, "kind": kind, "gamma": g, "eps": [rng.choice([1, 1, 3, 8]), rng.choice([0, 1, 2])],
                          "test": rng.choice(["span", "max_diff"]), "calls": rng.choice(seqs),
-                         "mbs": rng.choice([3, 7, 64, 1024]), "shuffle": False, "tag": f"{kind}{k}"})
+                         "mbs": rng.choice([3, 7, 64, 1024]), "shuffle": False, "tag": f"{kind}{k}",
+                         "eps_as_int": k % 3 == 0})
         m = gen.unichain(rng, v0max=rng.choice([0, 0, 3]))
         jobs.append({"mdp": m, "kind": "RVI", "gamma": [1, 1], "eps": [rng.choice([1, 1, 3]), rng.choice([0, 1, 2, 3])],
                      "calls": rng.choice(seqs), "mbs": rng.choice([2, 1024]), "tag": f"RVI{k}"})
